@@ -180,6 +180,25 @@ def run_case(ctx, case):
             ctx.count("parse_or_walk_raised")
             continue
         judge(ctx, case, tokens, kind + "-walker")
+        if len(data) % 4 == 0 and not any(t["type"] == "SerializeError" for t in tokens):
+            # the serializer's strip_whitespace option is this filter applied to the walker's stream, before the filters
+            # that drop or rewrite tags (the filter must see balanced start/end tags of the preserving elements)
+            from html5lib import serializer
+            from html5lib.filters import whitespace
+            for omit in (True, False):
+                try:
+                    a = serializer.HTMLSerializer(strip_whitespace=True, omit_optional_tags=omit).render(streams.copy_tokens(tokens))
+                    b = serializer.HTMLSerializer(strip_whitespace=False, omit_optional_tags=omit).render(
+                        whitespace.Filter(streams.copy_tokens(tokens)))
+                except Exception:
+                    ctx.count("serializer_raised_in_wiring_clause")
+                    continue
+                ctx.count("serializer_option_compared_with_filter")
+                if a != b:
+                    ctx.violation("serializer-option-differs-from-filter", case,
+                                  "%s walker, omit_optional_tags=%s: strip_whitespace=True gives %r, the filter applied first gives %r" % (
+                                      kind, omit, a[:200], b[:200]))
+                    return
 
 
 SEEDS = ["a &#32; b", "<pre> a  b <b> c  d </b>\n\n</pre> e  f ", "<textarea> a  b </textarea>  x  y ",
